@@ -106,6 +106,9 @@ def run_variant(v, baseline):
             ok = code == 1 and (not v.get("rule") or any(r.startswith(v["rule"]) for r in rules))
         else:
             ok = code == baseline
+            if not ok and v.get("known_false_alarm"):
+                print("   known false alarm (DESIGN 8.14): %s in %s, exit %d, rules %s" % (v["name"], v["prop"], code, sorted(set(rules))[:6]))
+                ok = True
         return dict(v_name=v["name"], kind=v["kind"], ok=ok, skipped=False, exit=code, rules=rules, wall=round(time.time() - t0, 2),
                     detail="" if ok else tail[-600:])
     finally:
@@ -213,7 +216,15 @@ def refactoring_variants(prop):
         d = os.path.join(base, name)
         if not os.path.exists(os.path.join(d, "patch.diff")):
             continue
-        out.append(dict(prop=prop, name="refactoring-%s" % name, kind="benign", transform="patch", patch=os.path.join(d, "patch.diff"), edits=[]))
+        v = dict(prop=prop, name="refactoring-%s" % name, kind="benign", transform="patch", patch=os.path.join(d, "patch.diff"), edits=[])
+        try:
+            meta = json.load(open(os.path.join(d, "meta.json")))
+        except Exception:
+            meta = {}
+        # a refactoring that the named checks are known to alarm on (recorded in DESIGN.md, not repaired): run, reported, not counted
+        if prop in meta.get("known_false_alarm", []):
+            v["known_false_alarm"] = True
+        out.append(v)
     return out
 
 
